@@ -1,2 +1,4 @@
-import Tumfl.Props.C11
-#print axioms Tumfl.Props.C11_roundtrip
+import Tumfl.Props.C14
+#print axioms Tumfl.Props.C14_noninterference
+#print axioms Tumfl.Inst.no_shared_writes
+#print axioms Tumfl.Inst.format_leaves_arguments
